@@ -59,5 +59,11 @@ def write_if_changed(path, text):
     return True
 
 
+def gen_path(name):
+    """where generated Coq files go: <coq dir>/gen/<name>; the coq dir is /verif/coq unless VERIF_COQ says otherwise
+    (private copy used when a check runs against a scratch copy of the repository)"""
+    return os.path.join(os.environ.get('VERIF_COQ') or os.path.join(os.path.dirname(os.path.dirname(os.path.abspath(__file__))), 'coq'), 'gen', name)
+
+
 class TranslatorError(Exception):
     """Fail closed: the source has a shape the translator does not recognise."""
